@@ -118,7 +118,7 @@ Definition frame_eqb (a b : frame) : bool :=
   | FArgVal x, FArgVal y => key_eqb x y
   | _, _ => false
   end.
-Definition is_argval (f : frame) : bool := match f with FArgVal _ => true | _ => false end.
+Definition is_argval (f : frame) : bool := match f with FArgVal _ | FArgvalNoTemplate => true | _ => false end.  (* str.startswith "ARGVAL-" *)
 
 Fixpoint frames_eqb (a b : list frame) : bool :=
   match a, b with
